@@ -258,6 +258,9 @@ impl Expr {
 }
 
 impl Display for Expr {
+    /// The text of an expression identifies it (it is the key of the per-row value cache and of the
+    /// aggregate buffers, and the column name in JSON output), so it has to show the whole tree:
+    /// operators, grouping and every function argument.
     fn fmt(&self, fmt: &mut Formatter) -> fmt::Result {
         use std::fmt::Write;
 
@@ -271,9 +274,39 @@ impl Display for Expr {
             if let Some(ref left) = self.left {
                 fmt.write_str(&left.to_string())?;
             }
+            if let Some(ref args) = self.args {
+                for arg in args {
+                    fmt.write_str(", ")?;
+                    fmt.write_str(&arg.to_string())?;
+                }
+            }
             fmt.write_char(')')?;
         } else if let Some(ref left) = self.left {
-            fmt.write_str(&left.to_string())?;
+            let operator = if let Some(ref op) = self.arithmetic_op {
+                Some(String::from(match op {
+                    ArithmeticOp::Add => "+",
+                    ArithmeticOp::Subtract => "-",
+                    ArithmeticOp::Multiply => "*",
+                    ArithmeticOp::Divide => "/",
+                    ArithmeticOp::Modulo => "%",
+                }))
+            } else if let Some(ref op) = self.op {
+                Some(format!("{:?}", op))
+            } else {
+                self.logical_op.as_ref().map(|op| format!("{:?}", op))
+            };
+
+            match (operator, &self.right) {
+                (Some(operator), Some(right)) => {
+                    write!(fmt, "({} {} {})", left, operator, right)?;
+                }
+                _ => {
+                    fmt.write_str(&left.to_string())?;
+                    if let Some(ref right) = self.right {
+                        fmt.write_str(&right.to_string())?;
+                    }
+                }
+            }
         }
 
         if let Some(ref field) = self.field {
@@ -282,10 +315,6 @@ impl Display for Expr {
 
         if let Some(ref val) = self.val {
             fmt.write_str(val)?;
-        }
-
-        if let Some(ref right) = self.right {
-            fmt.write_str(&right.to_string())?;
         }
 
         Ok(())
